@@ -173,3 +173,57 @@ func (g *genState) handlerOwnership(orig, data []byte, res string, rel *relayed,
 		g.hit(hit{What: "handler-relays-bytes-that-differ-or-do-not-decode:HandleMsg", Type: "handler:HandleMsg", Mode: "vrf-handler", Bytes: hex.EncodeToString(orig), Re: hex.EncodeToString(p), Note: bad})
 	}
 }
+
+// ---- capacity of decoded slices -----------------------------------------------------------------
+// A decoded slice is grown as elements arrive (x1.5): its capacity stays within a small
+// multiple of its length.  A capacity far beyond the length means the decoder allocated by
+// a size FIELD (bytes of payload) instead of by what it decoded.
+const capKey = "decoded-slice-capacity-far-beyond-length:"
+
+func sliceCaps(v reflect.Value, path string, depth int, bad *string) {
+	if depth > 8 || !v.IsValid() || *bad != "" {
+		return
+	}
+	switch v.Kind() {
+	case reflect.Ptr, reflect.Interface:
+		if !v.IsNil() {
+			sliceCaps(v.Elem(), path, depth+1, bad)
+		}
+	case reflect.Struct:
+		if v.Type() == bigIntStructT || !v.CanAddr() {
+			return
+		}
+		for i := 0; i < v.NumField(); i++ {
+			f := v.Field(i)
+			sliceCaps(reflect.NewAt(f.Type(), unsafe.Pointer(f.UnsafeAddr())).Elem(), path+"."+v.Type().Field(i).Name, depth+1, bad)
+		}
+	case reflect.Slice:
+		if v.Cap() > 4*v.Len()+16 {
+			*bad = fmt.Sprintf("%s: len %d, cap %d (element size %d bytes)", path, v.Len(), v.Cap(), v.Type().Elem().Size())
+			return
+		}
+		if v.Type().Elem().Kind() == reflect.Uint8 {
+			return
+		}
+		for i := 0; i < v.Len() && i < 64; i++ {
+			sliceCaps(v.Index(i), fmt.Sprintf("%s[%d]", path, i), depth+1, bad)
+		}
+	}
+}
+
+func (g *genState) capOracle(e *entry, obj reflect.Value, b []byte, via string) {
+	if !obj.IsValid() {
+		return
+	}
+	bad := ""
+	sliceCaps(obj, e.name, 0, &bad)
+	g.res.Count("slice_caps_checked")
+	if bad != "" {
+		g.res.Count("slice_cap_hit")
+		if len(b) > 200000 {
+			b = b[:200000]
+		}
+		g.hit(hit{What: capKey + e.name, Type: e.name, Bytes: hex.EncodeToString(b), Via: via,
+			Note: "a slice of the decoded object has a capacity far beyond its length: " + bad})
+	}
+}
